@@ -51,7 +51,7 @@ def main():
                 demo = os.path.join(src, cand); break
         differ = False
         tdir = tempfile.mkdtemp(prefix="sw_demo_")
-        if os.path.exists(os.path.join(src, "run.sh")) and demo:
+        if os.path.exists(os.path.join(src, "run.sh")) and demo and not os.path.exists(os.path.join(src, "demo.sh")):
             shutil.copytree(src, os.path.join(tdir, "m"), dirs_exist_ok=True)
             base = "/tmp/mutants/C08-base"
             if os.path.isdir(base):
@@ -60,6 +60,20 @@ def main():
             r1, o1 = sh(cmdt.format(bin="/tmp/sw/gg_head"), cwd=os.path.join(tdir, "m"))
             r2, o2 = sh(cmdt.format(bin=f"/tmp/sw/gg_{name}"), cwd=os.path.join(tdir, "m"))
             ran.append("sh run.sh <binary>  (HEAD binary vs. mutated binary)")
+            n1, n2 = o1.replace(tdir, "<tmp>"), o2.replace(tdir, "<tmp>")
+            differ = n1 != n2
+            meta["demo_head"], meta["demo_mutant"] = n1[-3000:], n2[-3000:]
+        elif os.path.exists(os.path.join(src, "demo.sh")):
+            shutil.copytree(src, os.path.join(tdir, "m"), dirs_exist_ok=True)
+            base = os.path.dirname(src.rstrip("/"))
+            for helper in ("run.sh", "check.sh"):
+                hp = os.path.join(src, helper)
+                if os.path.exists(hp):
+                    shutil.copy(hp, os.path.join(tdir, helper))
+            cmdt = "sh demo.sh {bin} 2>&1"
+            ran.append("sh demo.sh <binary>  (HEAD binary vs. mutated binary)")
+            r1, o1 = sh(cmdt.format(bin="/tmp/sw/gg_head"), cwd=os.path.join(tdir, "m"))
+            r2, o2 = sh(cmdt.format(bin=f"/tmp/sw/gg_{name}"), cwd=os.path.join(tdir, "m"))
             n1, n2 = o1.replace(tdir, "<tmp>"), o2.replace(tdir, "<tmp>")
             differ = n1 != n2
             meta["demo_head"], meta["demo_mutant"] = n1[-3000:], n2[-3000:]
